@@ -160,7 +160,7 @@ func runGate(w, p int, useDefault bool, base int, cancelFirst bool) gateCase {
 type passIDKey struct{}
 
 type interferenceOp struct {
-	Kind   string `json:"call"` // stabilize | parallel | set+stabilize | set+parallel
+	Kind   string `json:"call"` // stabilize | parallel | set+stabilize | set+parallel | cancelled-parallel | cancelled-stabilize (context cancelled before the call)
 	Result string `json:"result"`
 	RanFns int    `json:"node_functions_it_started"`
 }
@@ -306,6 +306,12 @@ func runInterference(p, w int, script []string, rng *hx.Rand) interference {
 			fresh++
 		}
 		ctx := context.WithValue(context.Background(), passIDKey{}, id)
+		if strings.HasPrefix(kind, "cancelled-") {
+			// a caller that has already given up: its context is cancelled before the call
+			cctx, cancel := context.WithCancel(ctx)
+			cancel()
+			ctx = cctx
+		}
 		done := make(chan error, 1)
 		if strings.HasSuffix(kind, "parallel") {
 			go func() { done <- g.ParallelStabilize(ctx) }()
@@ -407,6 +413,9 @@ var fixedScripts = [][]string{
 	{"parallel", "set+stabilize"},
 	{"stabilize", "stabilize", "parallel", "set+parallel", "set+stabilize"},
 	{"set+parallel", "set+parallel", "stabilize", "set+parallel", "parallel"},
+	{"cancelled-parallel", "set+parallel"},
+	{"cancelled-stabilize", "set+stabilize"},
+	{"cancelled-parallel", "set+stabilize", "cancelled-stabilize", "set+parallel"},
 }
 
 func main() {
@@ -517,7 +526,7 @@ func main() {
 	// ---- interfering callers
 	var interf []interference
 	if *nscript >= 0 {
-		kinds := []string{"stabilize", "parallel", "set+stabilize", "set+parallel"}
+		kinds := []string{"stabilize", "parallel", "set+stabilize", "set+parallel", "cancelled-parallel", "cancelled-stabilize"}
 		for _, p := range []int{1, 2, 4} {
 			scripts := append([][]string(nil), fixedScripts...)
 			for i := 0; i < *nscript; i++ {
